@@ -21,7 +21,7 @@ from pedal.sandbox import mocked
 from pedal.sandbox.constants import TOOL_NAME
 from pedal.sandbox.feedbacks import runtime_error, EXCEPTION_FF_MAP
 from pedal.sandbox.exceptions import SandboxHasNoFunction, SandboxHasNoVariable
-from pedal.sandbox.timeout import timeout
+from pedal.sandbox.timeout import timeout, current_thread_was_terminated
 from pedal.sandbox.result import SandboxResult
 from pedal.sandbox.tracer import TRACER_STYLES
 
@@ -192,6 +192,11 @@ class Sandbox:
         # NOTE: https://docs.python.org/3/library/exceptions.html#SystemExit
         # This exception does not inherit from Exception and has to be caught separately
         except SystemExit as system_exit:
+            if current_thread_was_terminated():
+                # The time limit expired: the thread that waited for this one has already
+                # stopped the patches and reported the timeout, and may be running the next
+                # execution by now. This abandoned run must not touch the sandbox again.
+                return self
             self._stop_mocking(context)
             self._capture_exception(system_exit, sys.exc_info(),
                                     code, filename)
